@@ -7,11 +7,22 @@
     c06.static <func>                        → static defects of the handler
     c06.exclusions                           → the literal exclusion list
     c06.dump.counts                          → sizes of the regenerated tables
+    c06.alias <func> <0|1 mixed units> slot=objno …  → what `Np.runGuarded` does with the handler's regenerated
+                                               exits on a call whose slots hold the given objects
+    c06.exits <func>                         → the regenerated exit list (kind:raises:src;…)
+    c06.method <ndarray.m>                   → per regenerated override row: variant|receiver|kernel call `Np.run`
+                                               makes on symbolic arguments|defects (after the equivalence list)
+    c06.method.names                         → the regenerated override universe
 -/
 import UnytModel.DriverBase
 import UnytModel.NpHandlers
 import UnytModel.Generated.Handlers
 import UnytModel.Ref.C06Exclusions
+import UnytModel.NpAlias
+import UnytModel.Generated.C06Alias
+import UnytModel.NpMethods
+import UnytModel.Generated.C06Methods
+import UnytModel.Ref.C06MethodExclusions
 
 namespace Unyt
 open Unyt.Np
@@ -37,8 +48,51 @@ def c06RouteStr (f : String) : String :=
   | .handled => "handled"
   | .default => "default"
 
+def c06ParseSlots (xs : List String) : Option (List (String × Nat)) :=
+  xs.mapM fun x =>
+    match x.splitOn "=" with
+    | [p, i] => i.toNat?.map fun n => (p, n)
+    | _ => none
+
+def c06Units (a : Args String) : List String :=
+  a.filterMap fun (_, v) => match v with | .qty _ u => some u | _ => none
+
+/-- the operands' units are not all the same -/
+def c06UnitsDiffer (a : Args String) : Bool :=
+  match c06Units a with
+  | [] => false
+  | u :: us => us.any (· != u)
+
 def opsC06 : Handler := fun st fields =>
   match fields with
+  | "c06.alias" :: f :: mixed :: rest =>
+    match c06ParseSlots (rest.filter (· != "")) with
+    | some slots =>
+      let c : ObjCall String := ⟨slots, fun i => PyVal.qty ("o" ++ toString i) (if mixed == "1" then "u" ++ toString i else "u")⟩
+      let row : Row := ⟨f, "", "", false, [(true, f)], slots.map (fun (p, _) => (p, Fwd.same)), [], Post.id⟩
+      let env : Env String := ⟨c06UnitsDiffer, fun _ _ => false⟩
+      match runGuarded c06Kernel (fun p => PyVal.qty ("?" ++ p) "u") (fun r => r) (fun _ => "u") env
+              (exitsOf Generated.handlerExits f) row c with
+      | .raised e => some (st, s!"ok\traised\t{e}")
+      | .noKernel => some (st, "ok\tnokernel")
+      | .value _ r => some (st, s!"ok\tcall\t{r}")
+    | none => some (st, "bad-args")
+  | ["c06.method.exclusions"] =>
+    some (st, "ok\t" ++ ";".intercalate (Ref.exclC06Methods.map fun (f, d) => f ++ "|" ++ d)
+      ++ "\t" ++ ";".intercalate (Ref.methodEquivC06.map fun (f, d) => f ++ "|" ++ d))
+  | ["c06.method.names"] => some (st, "ok\t" ++ ";".intercalate Generated.methodOverrides)
+  | ["c06.method", m] =>
+    let rows := Generated.methodRows.filter (·.func == m)
+    let show1 (r : Row) : String :=
+      let args : Args String := r.params.filterMap fun (p, f) => if f == Fwd.injected then none else some (p, PyVal.qty p "u")
+      let call := match run c06Kernel (fun p => PyVal.qty ("?" ++ p) "u") (fun x => x) (fun _ => "u") r args with
+        | .value _ x => x
+        | .noKernel => "nokernel"
+        | .raised e => "raised:" ++ e
+      s!"{r.variant}|{r.sig}|{call}|{",".intercalate (methodDefects Ref.methodEquivC06 r)}"
+    some (st, "ok\t" ++ ";".intercalate (rows.map show1))
+  | ["c06.exits", f] =>
+    some (st, "ok\t" ++ ";".intercalate ((exitsOf Generated.handlerExits f).map fun e => s!"{e.kind.str}:{e.raises}:{e.src}"))
   | ["c06.route", f] => some (st, s!"ok\t{c06RouteStr f}")
   | "c06.run" :: f :: v :: s :: rest =>
     match c06FindRow f v s, c06ParseArgs (rest.filter (· != "")) with
